@@ -212,7 +212,6 @@ func cmdCheck(args []string) int {
 	// a failed determinism slice does not end the check at once: when the code under test itself
 	// is nondeterministic (a data race on shared state) the batch is what will show it; the failure
 	// becomes a harness error at the end only if nothing was found
-	
 
 	// the batch
 	type job struct {
